@@ -279,5 +279,11 @@ func init() {
 			}
 		})
 	}
+	for _, id := range []string{"C02", "C03", "C06", "C08", "C10", "C15"} {
+		properties[id].Technique += "; evaluation of hand-written predicates and helpers from their syntax trees (AST interpreter, nothing compiled or run) against written specifications on finite scenario families"
+	}
+	for _, id := range []string{"C01", "C04", "C07"} {
+		properties[id].Technique += "; forward dataflow analyses over the reconstructed transition system of the generated scanner (cursor marks, token bounds, call-stack slots)"
+	}
 	properties["PO"] = &Property{Level: "other", Run: func(c *Ctx) { defer c.cleanup(); c.presenceOracle() }}
 }
